@@ -791,7 +791,7 @@ def pretty_call(ctx, fn, *args, **kwargs):
     return pretty_call_alt(ctx, fn, args, kwargs)
 
 
-def pretty_call_alt(ctx, fn, args=(), kwargs=()):
+def pretty_call_alt(ctx, fn, args=(), kwargs=(), trailing_comment=None):
     """Returns a Doc that represents a function call to :keyword:`fn` with
     the ``args`` and ``kwargs``.
 
@@ -821,6 +821,9 @@ def pretty_call_alt(ctx, fn, args=(), kwargs=()):
                    of ``OrderedDict``, or an iterable of two-tuples, where the
                    first element is a `str` (key), and the second is the Python
                    value for that keyword argument.
+    :param trailing_comment: an optional comment text rendered after the
+                             last argument, see
+                             :func:`~prettyprinter.trailing_comment`.
     :returns: :class:`~prettyprinter.doc.Doc`
     """
 
@@ -838,6 +841,7 @@ def pretty_call_alt(ctx, fn, args=(), kwargs=()):
                 fndoc,
                 argdocs=[pretty_python_value(sole_arg, ctx)],
                 hug_sole_arg=True,
+                trailing_comment=trailing_comment,
             )
 
     nested_ctx = (
@@ -873,6 +877,7 @@ def pretty_call_alt(ctx, fn, args=(), kwargs=()):
             (kwarg, pretty_python_value(v, nested_ctx))
             for kwarg, v in kwargitems
         ),
+        trailing_comment=trailing_comment,
     )
 
 
@@ -957,6 +962,7 @@ def build_fncall(
 
     if (
         hug_sole_arg and
+        not trailing_comment and
         not kwargdocs and
         len(argdocs) == 1 and
         not is_commented(argdocs[0])
@@ -1133,7 +1139,12 @@ def _is_cnamedtuple(value):
 def pretty_namedtuple(value, ctx, trailing_comment=None):
     constructor = type(value)
     kwargs = zip(constructor._fields, value)
-    return pretty_call_alt(ctx, constructor, kwargs=kwargs)
+    return pretty_call_alt(
+        ctx,
+        constructor,
+        kwargs=kwargs,
+        trailing_comment=trailing_comment
+    )
 
 
 # Given a cnamedtuple value, returns a tuple
